@@ -139,13 +139,14 @@ type workload struct {
 	pre     int  // updates before the snapshot recovery
 	sync    bool // Sync after them
 	recover bool // install a foreign snapshot
+	same    bool // ... whose applied index is exactly the index this replica has applied (instead of one far ahead)
 	post    int  // updates after it
 	reopen  bool // Close + Open
 	tail    int  // updates after the reopen
 }
 
 func (w workload) String() string {
-	return fmt.Sprintf("open;%d updates;sync=%v;recover=%v;%d updates;reopen=%v;%d updates", w.pre, w.sync, w.recover, w.post, w.reopen, w.tail)
+	return fmt.Sprintf("open;%d updates;sync=%v;recover=%v(same index=%v);%d updates;reopen=%v;%d updates", w.pre, w.sync, w.recover, w.same, w.post, w.reopen, w.tail)
 }
 
 func snapshotBytes(entries map[string]string, applied uint64) []byte {
@@ -216,6 +217,21 @@ func runWorkload(w workload, fs *countFS, snap []byte, acks *[]ack, mark func(st
 			}
 			*acks = append(*acks, batch...)
 			i += sz
+			if idx%4 == 1 && i < n {
+				// an idempotent retry: the same keys and values again under the next indices (nothing stored changes, the
+				// applied index does)
+				rents, rbatch := []sm.Entry{}, []ack{}
+				for _, b := range batch {
+					idx++
+					rents = append(rents, sm.Entry{Index: idx, Cmd: enc(b.key, b.val)})
+					rbatch = append(rbatch, ack{index: idx, key: b.key, val: b.val})
+				}
+				if _, err := d.Update(rents); err != nil {
+					panic(err)
+				}
+				*acks = append(*acks, rbatch...)
+				i += len(rbatch)
+			}
 		}
 	}
 	upd(w.pre, "v")
@@ -225,13 +241,25 @@ func runWorkload(w workload, fs *countFS, snap []byte, acks *[]ack, mark func(st
 		}
 	}
 	if w.recover {
+		img, at, content := snap, uint64(snapIndex), snapEntries
+		if w.same {
+			// a snapshot taken by another replica at exactly the index this one has applied (as many entries as fit below it)
+			content = map[string]string{}
+			if idx >= 1 {
+				content["a"] = "1"
+			}
+			if idx >= 2 {
+				content["b"] = "2"
+			}
+			img, at = snapshotBytes(content, idx), idx
+		}
 		mark("recover")
-		if err := d.RecoverFromSnapshot(hx.NewShortReader(snap), nil); err != nil {
+		if err := d.RecoverFromSnapshot(hx.NewShortReader(img), nil); err != nil {
 			panic(err)
 		}
 		mark("")
-		idx = snapIndex
-		*acks = append(*acks, ack{index: snapIndex, snapshot: snapEntries})
+		idx = at
+		*acks = append(*acks, ack{index: at, snapshot: content})
 	}
 	upd(w.post, "w")
 	if w.reopen {
@@ -295,7 +323,7 @@ func short2(t string) string {
 	return f[len(f)-1]
 }
 
-func check(mem *vfs.MemFS, full []ack, lastAck uint64) (res string, idx uint64) {
+func check(mem *vfs.MemFS, full []ack, lastAck uint64, acked int) (res string, idx uint64) {
 	defer func() {
 		if r := recover(); r != nil {
 			res = fmt.Sprintf("reopen-panic:%v", r)
@@ -311,18 +339,33 @@ func check(mem *vfs.MemFS, full []ack, lastAck uint64) (res string, idx uint64) 
 	if idx < lastAck {
 		return fmt.Sprintf("index-below-acknowledged: applied index %d lower than last acknowledged %d", idx, lastAck), idx
 	}
-	want := expected(full, idx)
-	for _, key := range []string{"k0", "k1", "a", "b", "dummy-key"} {
-		v, _ := d.Lookup([]byte(key))
-		got := ""
-		if v != nil {
-			got = string(v.([]byte))
+	compare := func(want map[string]string) string {
+		for _, key := range []string{"k0", "k1", "a", "b", "dummy-key"} {
+			v, _ := d.Lookup([]byte(key))
+			got := ""
+			if v != nil {
+				got = string(v.([]byte))
+			}
+			if got != want[key] {
+				return fmt.Sprintf("data-mismatch: index %d key %s: got %q want %q", idx, key, got, want[key])
+			}
 		}
-		if got != want[key] {
-			return fmt.Sprintf("data-mismatch: index %d key %s: got %q want %q", idx, key, got, want[key]), idx
+		return ""
+	}
+	res = compare(expected(full, idx))
+	if res != "" {
+		// a snapshot installed at the very index the replica had already applied: until that installation is acknowledged,
+		// the content before it and the content after it both belong to that index
+		for pos, a := range full {
+			if a.snapshot != nil && a.index == idx && pos >= acked {
+				alt := append(append([]ack{}, full[:pos]...), full[pos+1:]...)
+				if compare(expected(alt, idx)) == "" {
+					res = ""
+				}
+			}
 		}
 	}
-	return "", idx
+	return res, idx
 }
 
 func main() {
@@ -479,9 +522,13 @@ func main() {
 		}
 	}
 	for wi := 0; wi < *nw; wi++ {
-		w := workload{pre: r.Intn(4), sync: r.Intn(2) == 0, recover: r.Intn(4) != 0, post: r.Intn(3), reopen: r.Intn(2) == 0, tail: r.Intn(3)}
+		w := workload{pre: r.Intn(4), sync: r.Intn(2) == 0, recover: r.Intn(4) != 0, same: r.Intn(3) == 0, post: r.Intn(3), reopen: r.Intn(2) == 0, tail: r.Intn(3)}
 		if wi == 0 {
 			w = workload{pre: 3, sync: true, recover: true, post: 2, reopen: true, tail: 1} // the full workload of the property text
+		}
+		if wi == 1 {
+			// the same with a snapshot taken at exactly the index this replica has applied
+			w = workload{pre: 3, sync: true, recover: true, same: true, post: 2, reopen: true, tail: 1}
 		}
 		// reference run: acknowledgements and the trace
 		full := []ack{}
@@ -599,12 +646,12 @@ func main() {
 					mem2.ResetToSyncedState()
 					mem2.SetIgnoreSyncs(false)
 					run.Count("case:double_crash_point")
-					if res, _ := check(mem2, full, lastAck); res != "" {
+					if res, _ := check(mem2, full, lastAck, ackedAtCrash); res != "" {
 						viol(res, j)
 					}
 				}
 			}
-			if res, _ := check(mem, full, lastAck); res != "" {
+			if res, _ := check(mem, full, lastAck, ackedAtCrash); res != "" {
 				viol(res, 0)
 			}
 		}
